@@ -35,7 +35,9 @@ void vw_reset(void) { vw_nplan = 0; vw_calls = 0; vw_logical = 0; vw_eintr_left 
 ssize_t verif_write(int fd, const void *buf, size_t n) {
   long me = vw_calls++;
   if (me < 65536) vw_sizes[me] = (long)n;
+  /* single-call outcomes first (a hard error planned inside a dribble / storm range still happens), ranges second */
   for (int i = 0; i < vw_nplan; i++) {
+    if (vw_plan[i].kind == VW_DRIBBLE || vw_plan[i].kind == VW_STORM) continue;
     if (vw_plan[i].call != me) continue;
     switch (vw_plan[i].kind) {
     case VW_SHORT: {
@@ -55,6 +57,20 @@ ssize_t verif_write(int fd, const void *buf, size_t n) {
       return 0;
     default:
       break;
+    }
+  }
+  for (int i = 0; i < vw_nplan; i++) {
+    if (vw_plan[i].kind == VW_DRIBBLE) {
+      long cnt = vw_plan[i].arg / 1000, k = vw_plan[i].arg % 1000;
+      if (me < vw_plan[i].call || me >= vw_plan[i].call + cnt) continue;
+      if (k < 1) k = 1;
+      if ((size_t)k > n) k = (long)n;
+      return write(fd, buf, (size_t)k);
+    }
+    if (vw_plan[i].kind == VW_STORM) {
+      if (me < vw_plan[i].call || me >= vw_plan[i].call + vw_plan[i].arg) continue;
+      errno = EINTR;
+      return -1;
     }
   }
   return write(fd, buf, n);
